@@ -136,7 +136,9 @@ func hostileSeeds() []hSeed {
 		j2k("j2k-binding", ".92", 6, 5, 2, 8, func(p *jpeg2000.EncodeParams) {
 			p.MCTBindings = []jpeg2000.MCTBindingParams{{ComponentIDs: []uint16{0, 1}, Matrix: [][]float64{{1, 0}, {1, 1}}, Inverse: [][]float64{{1, 0}, {-1, 1}}, ElementType: 1, Offsets: []int32{2, 5}}}
 		})
-		j2k("j2k-roi", ".90", 12, 12, 1, 8, func(p *jpeg2000.EncodeParams) { p.ROI = &jpeg2000.ROIParams{X0: 2, Y0: 2, Width: 5, Height: 5, Shift: 4} })
+		j2k("j2k-roi", ".90", 12, 12, 1, 8, func(p *jpeg2000.EncodeParams) {
+			p.ROI = &jpeg2000.ROIParams{X0: 2, Y0: 2, Width: 5, Height: 5, Shift: 4}
+		})
 		j2k("ht-g16", ".201", 9, 9, 1, 16, func(p *jpeg2000.EncodeParams) {
 			p.HTJ2KMode, p.ProgressionOrder = true, 2
 			p.BlockEncoderFactory = func(w, h int) jpeg2000.BlockEncoder { return htj2k.NewHTEncoder(w, h) }
@@ -306,12 +308,12 @@ func init() {
 // ---- cases
 
 type hCase struct {
-	Kind   string `json:"kind"` // trunc | sweep | field | havoc | session | single | rlefi
-	Seed   string `json:"seed,omitempty"`
-	From   int    `json:"from,omitempty"` // sweep/field: first offset
-	To     int    `json:"to,omitempty"`
-	N      int    `json:"n,omitempty"`
-	MSeed  uint64 `json:"mseed,omitempty"`
+	Kind  string `json:"kind"` // trunc | sweep | field | havoc | session | single | rlefi
+	Seed  string `json:"seed,omitempty"`
+	From  int    `json:"from,omitempty"` // sweep/field: first offset
+	To    int    `json:"to,omitempty"`
+	N     int    `json:"n,omitempty"`
+	MSeed uint64 `json:"mseed,omitempty"`
 	// single
 	Entry string `json:"entry,omitempty"`
 	Data  string `json:"data,omitempty"` // base64
@@ -486,44 +488,42 @@ func declaredSamples(d []byte) (S int64, declared bool) {
 		}
 		return 0, false
 	}
-	if len(d) >= 4 && d[0] == 0xFF && d[1] == 0xD8 {
-		i := 2
-		for i+4 <= len(d) {
+	{
+		// JPEG family (whatever the stream starts with: readers tolerate fill bytes
+		// before SOI).  Decoders differ in which frame header they honour when a
+		// (malformed) stream carries several - baseline skips an SOF3 and uses a later
+		// SOF0, some keep scanning after SOS/EOI - so S is the LARGEST size declared by
+		// any frame-header-like marker in the stream.  That can only move inputs out of
+		// the domain, never raise an alarm about the choice of header.
+		var best int64
+		found := false
+		for i := 2; i+10 <= len(d); i++ {
 			if d[i] != 0xFF {
-				i++
 				continue
 			}
 			m := d[i+1]
-			if m == 0xFF {
-				i++
-				continue
-			}
-			if m == 0xD8 || m == 0x01 || (m >= 0xD0 && m <= 0xD7) {
-				i += 2
-				continue
-			}
-			if m == 0xD9 || m == 0xDA {
-				return 0, false
-			}
-			L := int(d[i+2])<<8 | int(d[i+3])
 			if (m >= 0xC0 && m <= 0xCF && m != 0xC4 && m != 0xC8 && m != 0xCC) || m == 0xF7 {
-				if i+4+6 <= len(d) {
-					seg := d[i+4:]
-					h, w, n := int64(seg[1])<<8|int64(seg[2]), int64(seg[3])<<8|int64(seg[4]), int64(seg[5])
-					return w * h * n, true
+				seg := d[i+4:]
+				h, w, n := int64(seg[1])<<8|int64(seg[2]), int64(seg[3])<<8|int64(seg[4]), int64(seg[5])
+				found = true
+				if v := w * h * n; v > best {
+					best = v
 				}
-				return 0, false
+				// a zero height may be defined later by DNL: assume the maximum
+				if h == 0 {
+					if v := w * 65535 * n; v > best {
+						best = v
+					}
+				}
 			}
-			if L < 2 {
-				return 0, false
-			}
-			i += 2 + L
 		}
+		return best, found
 	}
-	return 0, false
 }
 
-func be32u(b []byte) uint32 { return uint32(b[0])<<24 | uint32(b[1])<<16 | uint32(b[2])<<8 | uint32(b[3]) }
+func be32u(b []byte) uint32 {
+	return uint32(b[0])<<24 | uint32(b[1])<<16 | uint32(b[2])<<8 | uint32(b[3])
+}
 func satMul(a, b int64) int64 {
 	if a == 0 || b == 0 {
 		return 0
